@@ -225,16 +225,19 @@ class LinkResult:
     faults_applied: int = 0
     exceptions: list = field(default_factory=list)   # (op index, handler, exception class)
     emitted: dict = field(default_factory=lambda: {"SD": [], "DS": []})
-    delivered: dict = field(default_factory=lambda: {"S": [], "D": []})
+    delivered: dict = field(default_factory=dict)
     entity_replies: int = 0
     ticks: int = 0
 
 
 class Link:
     def __init__(self, cfg: Cfg, fs_kind: str = "mem", plan: dict | None = None,
-                 pacing: Pacing | None = None, rng: Rng | None = None, header: list[str] | None = None):
+                 pacing: Pacing | None = None, rng: Rng | None = None, header: list[str] | None = None,
+                 sess: Session | None = None, names: tuple = ("S", "D")):
         self.cfg = cfg
-        self.sess = Session(header if header is not None else header_with_parent_dirs(cfg), fs_kind)
+        self.S, self.D = names                     # handler names of the sending / receiving side
+        self.sess = sess if sess is not None else \
+            Session(header if header is not None else header_with_parent_dirs(cfg), fs_kind)
         self.plan = dict(plan or {})
         self.pacing = pacing or Pacing()
         self.rng = rng or Rng(0)
@@ -242,8 +245,8 @@ class Link:
         self.count = {"SD": 0, "DS": 0}
         self.n_ins = 0
         self.round = 0
-        self.closed = {"S": set(), "D": set()}
-        self.active = {"S": None, "D": None}
+        self.closed = {self.S: set(), self.D: set()}
+        self.active = {self.S: None, self.D: None}
         self.res = LinkResult()
         self.events: list = []               # callbacks (op_index, handler, Status) for scheduled actions
         self.after_op = None                 # optional hook(self, handler, status)
@@ -273,12 +276,12 @@ class Link:
     def op(self, line: str) -> Status:
         st = self.sess.do(line)
         t = line.split()
-        if len(t) > 1 and t[1] in ("S", "D"):
+        if len(t) > 1 and t[1] in (self.S, self.D):
             self._track(t[1], st)
         return st
 
     def drain(self, h: str):
-        d = "SD" if h == "S" else "DS"
+        d = "SD" if h == self.S else "DS"
         while True:
             st = self.sess.do(f"get {h}")
             self._track(h, st)
@@ -350,11 +353,11 @@ class Link:
         f = pdu_fields(pdu)
         hdr = (f"mode={f['mode']} crc={f['crc']} large={f['large']} src={f['src']} dst={f['dst']} "
                f"seq={f['seq']}")
-        if h == "D" and k == "eof":
+        if h == self.D and k == "eof":
             # acknowledge_inactive_eof_pdu(eof, TERMINATED)
             self._push("DS", self.round + 1, f"ack dir=S {hdr} of=4 cond={f['cond']} tstat=2")
             self.res.entity_replies += 1
-        elif h == "S" and k == "fin":
+        elif h == self.S and k == "fin":
             self._push("SD", self.round + 1, f"ack dir=R {hdr} of=5 cond={f['cond']} tstat=2")
             self.res.entity_replies += 1
         return True
@@ -365,7 +368,7 @@ class Link:
         return (int(a.split("/")[0]), int(b.split("/")[0]))
 
     def deliver_ready(self, h: str) -> int:
-        d = "SD" if h == "D" else "DS"
+        d = "SD" if h == self.D else "DS"
         n = 0
         while n < self.pacing.batch:
             ready = sorted((x for x in self.q[d] if x[0] <= self.round), key=lambda x: (x[0], x[1]))
@@ -376,7 +379,7 @@ class Link:
             pdu = item[2]
             if self._entity_duty(h, pdu):
                 continue
-            self.res.delivered[h].append(pdu)
+            self.res.delivered.setdefault(h, []).append(pdu)
             self.sm(h, pdu)
             self.drain(h)
             n += 1
@@ -404,33 +407,33 @@ class Link:
         p, rng = self.pacing, self.rng
         self.round += 1
         self.res.rounds += 1
-        for h in ("D", "S"):
-            skip = p.skip_d if h == "D" else p.skip_s
+        for h in (self.D, self.S):
+            skip = p.skip_d if h == self.D else p.skip_s
             if not fair and skip and rng.chance(skip):
                 continue
             if fair or not (p.hold and rng.chance(p.hold)):
                 self.deliver_ready(h)
-            for _ in range(max(1, p.idle_d if h == "D" else p.idle_s) if fair else
-                           (p.idle_d if h == "D" else p.idle_s)):
+            for _ in range(max(1, p.idle_d if h == self.D else p.idle_s) if fair else
+                           (p.idle_d if h == self.D else p.idle_s)):
                 self.sm(h)
                 self.drain(h)
 
     def progress_sig(self):
-        return (self.status("S").line, self.status("D").line, self.in_flight(), self.count["SD"],
+        return (self.status(self.S).line, self.status(self.D).line, self.in_flight(), self.count["SD"],
                 self.count["DS"])
 
     def run(self, max_rounds: int = 400, max_ticks: int = 60, tick_ms: int | None = None,
             start: bool = True) -> LinkResult:
         """put request, then pump until both sides are idle and the link is empty"""
         if start:
-            self.op(self.cfg.put_line())
+            self.op(self.cfg.put_line().replace("put S ", f"put {self.S} ", 1))
         if tick_ms is None:
             tick_ms = min(int(self.cfg.ack.split("/")[0]), int(self.cfg.nak.split("/")[0]), self.cfg.chkms)
         quiet = 0
         while self.res.rounds < max_rounds:
             before = self.progress_sig()
             self.one_round(fair=quiet > 0)
-            if self.idle("S") and self.idle("D") and self.in_flight() == 0:
+            if self.idle(self.S) and self.idle(self.D) and self.in_flight() == 0:
                 return self.res
             if self.progress_sig() == before:
                 quiet += 1
